@@ -28,6 +28,16 @@ pub struct Case {
     /// 4 all of them
     #[serde(default)]
     pub between: u8,
+    /// how the shape of input set B differs from A's: (extra hidden messages, extra committed messages) =
+    /// [(0, 0), (0, 1), (1, 3), (2, 0)][shape_b % 4]. A history that alternates between the two sets then asks for
+    /// more (or fewer) blinding scalars than the call before on the same thread
+    #[serde(default)]
+    pub shape_b: u8,
+}
+
+fn shape_b(c: &Case) -> (usize, usize) {
+    let (du, dm) = [(0usize, 0usize), (0, 1), (1, 3), (2, 0)][(c.shape_b % 4) as usize];
+    (c.u + du, c.m + dm)
 }
 
 fn strat(n: usize) -> impl Strategy<Value = Case> {
@@ -40,8 +50,9 @@ fn strat(n: usize) -> impl Strategy<Value = Case> {
         prop::collection::vec(prop::bool::weighted(0.25), n..=n),
         prop::sample::select(vec![1usize, 1, 4, 16]),
         0u8..5,
+        0u8..4,
     )
-        .prop_map(|(suite, seed_a, seed_b, u, m, schedule, threads, between)| Case { suite, seed_a, seed_b, u, m, schedule, threads, between })
+        .prop_map(|(suite, seed_a, seed_b, u, m, schedule, threads, between, shape_b)| Case { suite, seed_a, seed_b, u, m, schedule, threads, between, shape_b })
 }
 
 /// everything one generation hands out, plus what the witness holder recomputes from it
@@ -380,7 +391,10 @@ fn judge_pool(pool: &Pool) -> Result<(), (String, String)> {
 fn run_history<CS: BbsCiphersuite>(rep: &Report, ck: &str, c: &Case) -> CheckResult {
     let r = Ref::new(c.suite);
     let ia = inputs::<CS>(c.seed_a, c.u, c.m);
-    let ib = inputs::<CS>(c.seed_b, c.u, c.m);
+    let ib = inputs::<CS>(c.seed_b, shape_b(c).0, shape_b(c).1);
+    if c.shape_b % 4 != 0 && c.schedule.iter().any(|b| *b) && c.schedule.iter().any(|b| !*b) {
+        rep.class("history-alternates-between-two-shapes");
+    }
     let n = c.schedule.len();
     // generation, possibly on several threads released together
     let mut gens: Vec<Gen> = Vec::with_capacity(n);
@@ -536,19 +550,19 @@ pub fn run(ctx: &Ctx, rep: &Report) -> Meta {
     let shapes: &[(usize, usize)] = ctx.tier.pick(&[(28, 0), (33, 31), (40, 2), (70, 40), (3, 64)], &[(28, 0), (33, 31), (40, 2), (70, 40), (3, 64), (130, 130), (260, 3), (3, 260), (600, 600)]);
     for (k, &(u, m)) in shapes.iter().enumerate() {
         for suite in [SuiteId::Sha256, SuiteId::Shake256] {
-            large.push(Case { suite, seed_a: (ctx.seed as u32).wrapping_add(7 * k as u32 + 1), seed_b: 0, u, m, schedule: vec![false; ctx.tier.pick(4, 12)], threads: 1 + 3 * (k % 2), between: (k % 5) as u8 });
+            large.push(Case { suite, seed_a: (ctx.seed as u32).wrapping_add(7 * k as u32 + 1), seed_b: 0, u, m, schedule: vec![false; ctx.tier.pick(4, 12)], threads: 1 + 3 * (k % 2), between: (k % 5) as u8, shape_b: 0 });
         }
     }
     // every count of hidden / committed messages in a contiguous range, two generations each
     for u in 0..ctx.tier.pick(72usize, 140usize) {
-        large.push(Case { suite: if u % 2 == 0 { SuiteId::Sha256 } else { SuiteId::Shake256 }, seed_a: (ctx.seed as u32).wrapping_add(1000 + u as u32), seed_b: 0, u, m: (u * 7 + 3) % 73, schedule: vec![false; 2], threads: 1, between: (u % 5) as u8 });
+        large.push(Case { suite: if u % 2 == 0 { SuiteId::Sha256 } else { SuiteId::Shake256 }, seed_a: (ctx.seed as u32).wrapping_add(1000 + u as u32), seed_b: 0, u, m: (u * 7 + 3) % 73, schedule: vec![false; 2], threads: 1, between: (u % 5) as u8, shape_b: 0 });
     }
     par_items(ctx, rep, "large-shapes", &large, |c| check(rep, "large-shapes", c));
     // identical inputs in fresh processes (per-process seeding defects)
     let procs: Vec<Case> = [SuiteId::Sha256, SuiteId::Shake256]
         .iter()
         .enumerate()
-        .map(|(k, &suite)| Case { suite, seed_a: (ctx.seed as u32).wrapping_add(k as u32), seed_b: 0, u: [1, 3][k], m: [2, 0][k], schedule: vec![false; ctx.tier.pick(24, 200)], threads: 1, between: 0 })
+        .map(|(k, &suite)| Case { suite, seed_a: (ctx.seed as u32).wrapping_add(k as u32), seed_b: 0, u: [1, 3][k], m: [2, 0][k], schedule: vec![false; ctx.tier.pick(24, 200)], threads: 1, between: 0, shape_b: 0 })
         .collect();
     par_items(ctx, rep, "fresh-processes", &procs, |c| child_processes(rep, "fresh-processes", c, ctx.tier.pick(3, 8)));
     if !rep.aborted() {
@@ -558,7 +572,7 @@ pub fn run(ctx: &Ctx, rep: &Report) -> Meta {
         }
     }
     Meta {
-        rule: "history = a generated schedule of n generations (disclosed positions handed over as a plain list or with every position listed up to four times, in ascending or descending order) (small shapes U in {0,1,3}, M in {0,2}); large shapes with up to 70 / 600 hidden and 64 / 600 committed messages and EVERY count of hidden messages 0..72 / 0..140 with two generations each; (n = 64 quick / 1000 thorough) over two input sets (same input repeated most of the time), on 1, 4 or 16 threads released from a barrier, with the deterministic calls of a stateless worker (key re-derived from the same key material / sign / verify + proof_verify / all of them) repeated with identical arguments before every generation in four fifths of the histories, \
+        rule: "history = a generated schedule of n generations (disclosed positions handed over as a plain list or with every position listed up to four times, in ascending or descending order) (small shapes U in {0,1,3}, M in {0,2}; the second input set of a history has up to 2 more hidden / 3 more committed messages than the first, so consecutive calls on a thread ask for different numbers of blinding scalars); large shapes with up to 70 / 600 hidden and 64 / 600 committed messages and EVERY count of hidden messages 0..72 / 0..140 with two generations each; (n = 64 quick / 1000 thorough) over two input sets (same input repeated most of the time), on 1, 4 or 16 threads released from a barrier, with the deterministic calls of a stateless worker (key re-derived from the same key material / sign / verify + proof_verify / all of them) repeated with identical arguments before every generation in four fifths of the histories, \
                plus identical inputs in 3 (quick) / 8 (thorough) fresh child processes; each generation = proof_gen + commit + blind_sign + blind_proof_gen + BlindFactor::random + KeyPair::random + generate_random_secret; \
                oracle (witness holder): e~ = e^ - e*c, m~_j = m^_j - m_j*c, s~ = s^ - blind*c are non-zero, >= 2^128, pairwise distinct over the whole pooled history (also vs. challenges, blind factors, random keys), \
                consecutive values differ by >= 2^128 both ways, Abar/Bbar/D/commitments/random secrets pairwise distinct, two-transcript extractor returns neither e nor a hidden message, \
@@ -575,7 +589,7 @@ pub fn replay(_ctx: &Ctx, rep: &Report, ck: &str, case: &Value) -> CheckResult {
     if ck == "bit-balance" {
         // the statistic is over a whole run: regenerate 40 histories and judge again
         for k in 0..40u32 {
-            let c = Case { suite: if k % 2 == 0 { SuiteId::Sha256 } else { SuiteId::Shake256 }, seed_a: k, seed_b: k + 1, u: 3, m: 2, schedule: vec![false; 64], threads: 1, between: 0 };
+            let c = Case { suite: if k % 2 == 0 { SuiteId::Sha256 } else { SuiteId::Shake256 }, seed_a: k, seed_b: k + 1, u: 3, m: 2, schedule: vec![false; 64], threads: 1, between: 0, shape_b: 0 };
             check(rep, ck, &c)?;
         }
         return match judge_bits() {
